@@ -266,10 +266,32 @@ fn main() {
                     names.push(format!("a{j}"));
                 }
             }
+            // three call forms: direct call, the host function stored in a variable (the compiler emits a
+            // wrapper function object), and a call from inside an Abra function whose parameters are passed on
+            let form = ctx.rng.below(3);
+            let has_void_param = sig.params.iter().any(|t| *t == Ty::Unit);
+            let callee = match form {
+                1 => {
+                    p.push_str(&format!("let g = f{k:02}\n"));
+                    "g".to_string()
+                }
+                2 if !has_void_param => {
+                    let ps: Vec<String> = sig.params.iter().enumerate().map(|(j, t)| format!("p{j}: {}", abra_ty(t))).collect();
+                    let qs: Vec<String> = (0..sig.params.len()).map(|j| format!("p{j}")).collect();
+                    p.push_str(&format!("fn via({}) -> {} {{\n    f{k:02}({})\n}}\n", ps.join(", "), abra_ty(&sig.ret), qs.join(", ")));
+                    "via".to_string()
+                }
+                _ => format!("f{k:02}"),
+            };
+            ctx.count(match (form, callee.as_str()) {
+                (1, _) => "call-form:through-variable",
+                (2, "via") => "call-form:inside-function",
+                _ => "call-form:direct",
+            });
             if sig.ret == Ty::Unit {
-                p.push_str(&format!("f{k:02}({})\nprintln(nil)\n", names.join(", ")));
+                p.push_str(&format!("{callee}({})\nprintln(nil)\n", names.join(", ")));
             } else {
-                p.push_str(&format!("let r = f{k:02}({})\nprintln(r)\n", names.join(", ")));
+                p.push_str(&format!("let r = {callee}({})\nprintln(r)\n", names.join(", ")));
             }
             cases.push(Case { k, args, ret, program: p });
         }
